@@ -18,14 +18,18 @@ THEOREMS = [
 ]
 HARNESS = {"src": ["tlink.cpp"], "exclude": ["src/cpp/thread-link.cpp"], "deps": ["common.h", "tl_sched.h"]}
 STATELESS = True
-RULE = ("three streams. seq: random operation histories (5..40 ops: write/writeArray/raw_write of valid OSC messages "
-        "of 8..44 bytes, some longer than MaxMsg, read, read_lookahead, hasNext, hasNextLookahead) on rings of 16..128 "
-        "bytes. conc: writer history x reader history x memcpy chunk size x schedule (sequence of thread choices at "
-        "shared accesses); quick: random schedules; thorough: additionally *every* schedule (enumerated by the model) of "
-        "histories with <= 2 writer and <= 2 reader operations after a sequential warm-up that rotates the ring, on 16..24 "
-        "byte rings so that full, empty and wrap-around states occur. soak: two free-running threads, 2*10^4 (quick) / "
-        "4*10^5 messages (thorough, also under -fsanitize=thread). non-trivial = seq line with >= 3 ops or conc line "
-        "where both threads have operations; distinct = distinct op line")
+RULE = ("three streams. seq (quick 6000 / thorough 60000): random operation histories of 5..40 ops "
+        "(write/writeArray/raw_write of valid OSC messages of 8..44 bytes with all argument types, ~12% longer than "
+        "MaxMsg, read, read_lookahead, hasNext, hasNextLookahead; 1 in 40 histories also raw_writes bundles, finding "
+        "C06-K5) on rings of 16..128 bytes including sizes that are not multiples of 4 (18, 26, 30, 33, 63). "
+        "conc (quick 25000 / thorough 150000): writer history (1..5 ops) x reader history (1..8 ops) x memcpy chunk size "
+        "(whole, 1, 2, 3, 4, 5, 8 bytes) x random schedule (thread choice at every shared access, biased and bursty); "
+        "thorough additionally *every* schedule, enumerated by the model, of ~550 histories with <= 2 writer and <= 2 "
+        "reader operations behind a sequential warm-up write+read that rotates the ring (16..26-byte rings, whole memcpy "
+        "and 4-byte chunks; ~10^5 schedules), so that full, empty and wrap-around states occur under all interleavings. "
+        "soak: two free-running threads, 2*10^4 messages (quick) / 8*10^5 messages on three rings (thorough, also run in "
+        "a separate -fsanitize=thread build). non-trivial = something is written and something is read; distinct = "
+        "distinct op line")
 ASSUMPTIONS = [
     "one writer thread and one reader thread (the documented use); index variables are seq_cst atomics, so an "
     "interleaving of shared accesses is a faithful execution model once data-race freedom of the plain ring bytes is "
@@ -211,7 +215,8 @@ def gen_conc_exhaustive(rng, stats, budget):
         for warm in ([None] + sizes[:2]):
             for nw in (1, 2):
                 for nr in (1, 2):
-                    for _ in range(3):
+                    for rep in range(10):
+                        chunk = 4 if rep % 3 == 2 else 0
                         ws = [rand_msg(rng, rng.choice(sizes)) for _ in range(nw)]
                         rops = "".join(rng.choice("rrlhk") for _ in range(nr))
                         if "r" not in rops and "l" not in rops and rng.random() < 0.7:
@@ -222,11 +227,11 @@ def gen_conc_exhaustive(rng, stats, budget):
                             wtok = ["w" + hx(rand_msg(rng, warm))] + wtok
                             rops = "r" + rops
                             pre = 1
-                        hist.append((maxMsg, nmsgs, wtok, rops, pre))
+                        hist.append((maxMsg, nmsgs, wtok, rops, pre, chunk))
     rng.shuffle(hist)
     enum_lines = []
-    for (maxMsg, nmsgs, wtok, rops, pre) in hist:
-        enum_lines.append("enum %d %d 0 %s %s 6000 %d" % (maxMsg, nmsgs, ",".join(wtok), rops, pre))
+    for (maxMsg, nmsgs, wtok, rops, pre, chunk) in hist:
+        enum_lines.append("enum %d %d %d %s %s 8000 %d" % (maxMsg, nmsgs, chunk, ",".join(wtok), rops, pre))
     res = driver_lines(enum_lines)
     if res is None:
         stats["exhaustive"] = "driver not available: no exhaustive schedules"
@@ -239,11 +244,12 @@ def gen_conc_exhaustive(rng, stats, budget):
             continue
         scheds = r.split(",")
         if n + len(scheds) > budget:
-            break
+            stats["exhaustive_skipped"] = stats.get("exhaustive_skipped", 0) + 1
+            continue
         nh += 1
         for s in scheds:
             n += 1
-            yield "conc %d %d 0 %s %s %s" % (h[0], h[1], ",".join(h[2]), h[3], s if s else "-")
+            yield "conc %d %d %d %s %s %s" % (h[0], h[1], h[5], ",".join(h[2]), h[3], s if s else "-")
     stats["exhaustive_histories"] = nh
     stats["exhaustive_schedules"] = n
 
@@ -301,7 +307,7 @@ def tsan_soak(lines, stats):
 
 def generate(rng, tier, stats):
     stats.update({"seq": 0, "seq_bundle": 0, "conc_random": 0, "soak": 0, "msg_sizes": {}, "ring_sizes": {}, "chunk": {}})
-    nseq, nconc = (2500, 6000) if tier == "quick" else (40000, 60000)
+    nseq, nconc = (6000, 25000) if tier == "quick" else (60000, 150000)
     for i in range(nseq):
         b = i % 40 == 7
         stats["seq_bundle" if b else "seq"] += 1
@@ -310,7 +316,7 @@ def generate(rng, tier, stats):
         stats["conc_random"] += 1
         yield gen_conc_random(rng, stats)
     if tier == "thorough":
-        for op in gen_conc_exhaustive(rng, stats, 220000):
+        for op in gen_conc_exhaustive(rng, stats, 300000):
             yield op
     soaks = ["soak 32 4 20000 %d" % rng.randint(1, 1000)] if tier == "quick" else \
             ["soak 32 4 400000 %d" % rng.randint(1, 1000), "soak 12 2 200000 %d" % rng.randint(1, 1000),
@@ -323,11 +329,13 @@ def generate(rng, tier, stats):
 
 
 def nontrivial(op):
+    """a case says something about the FIFO when something is written *and* something is read"""
     w = op.split()
     if w[0] == "seq":
-        return len(w) >= 6
+        ops = w[3:]
+        return any(o[0] in "wax" for o in ops) and any(o in ("r", "l") for o in ops)
     if w[0] == "conc":
-        return w[4] != "-" and w[5] != "-"
+        return w[4] != "-" and ("r" in w[5] or "l" in w[5])
     return True
 
 
